@@ -37,6 +37,9 @@ def instances(tier, seed):
         for n in (range(0, 4) if tier == 'quick' else range(0, 5)):
             out.append({'lens': [n], 'wide': None, 'ty': ty})
         out.append({'lens': [1, 2], 'wide': None, 'ty': ty})
+    # what reaches the transport when the rendered request is sent (short writes are legal): the complete line(s)
+    for flav in ('sync', 'async'):
+        out.append({'kind': 'send', 'n': 2, 'flav': flav})
     for n, p in wide:
         out.append({'lens': [n], 'wide': [0, p]})
         if tier != 'quick':
@@ -72,6 +75,14 @@ def zb(x):
     return x if is_sym(x) else z3.BoolVal(bool(x))
 
 def run_instance(payload):
+    if payload.get('kind') == 'send':
+        from props import c13
+        P = engine.load_program()
+        res = Result(str(payload))
+        t0 = time.time()
+        c13.run_send(P, res, payload)
+        res.wall_s = time.time() - t0
+        return res.to_dict()
     P = engine.load_program()
     res = Result('lens=%s wide=%s' % (payload['lens'], payload['wide']))
     t0 = time.time()
@@ -187,6 +198,9 @@ def add_violation(res, ctx, args, what, known):
 def replay(rec):
     """run the real crate natively on the concrete arguments; True iff the violation reproduces"""
     inp = rec.get('input') or rec
+    if inp.get('kind') == 'send':
+        from props import c13
+        return c13.replay(rec)
     args = [unhex(a) for a in inp['args']]
     out = run_replay(['linety', inp.get('ty', 'str'), hexs(NAME)] + [hexs(a) for a in args])
     if 'panic' in out:
